@@ -603,7 +603,7 @@ Linear_System<Row>::gauss(const dimension_type n_lines_or_equalities) {
       // equalities following it, so that all the elements on the j-th
       // column in these rows become 0.
       for (dimension_type k = i + 1; k < n_lines_or_equalities; ++k) {
-        if (rows[k].expr.get(Variable(j - 1)) != 0) {
+        if (rows[k].expr.get(j) != 0) {
           rows[k].linear_combine(rows[rank], j);
           changed = true;
         }
@@ -653,8 +653,11 @@ Linear_System<Row>
     // `j' will be the index of such a element.
     Row& row_k = rows[k];
     const dimension_type j = row_k.expr.last_nonzero();
-    // TODO: Check this.
-    PPL_ASSERT(j != 0);
+    if (j == 0) {
+      // The only non-zero element of the equality is its inhomogeneous
+      // term (the system is inconsistent): no variable to substitute.
+      continue;
+    }
 
     // Go through the equalities above `row_k'.
     for (dimension_type i = k; i-- > 0; ) {
